@@ -203,6 +203,22 @@ CLAIMS = {
   design="§6 C20, §12"),
 }
 
+
+# sentences added in rounds 5-6 (DESIGN 14): float record classes and structured inputs per property
+ROUND6 = {
+ "C05": " Rounds 5-6: rotation_from_to_3d is also run on f32/f64 directions scaled by 2^-30 .. 2^40 (from_to_f: the result maps from/|from| onto to/|to| and is a unit quaternion, to 2^-14 / 2^-9), because a wrong magnitude-dependent branch ends in an irrational root that the exact lane drops as inconclusive.",
+ "C07": " Rounds 5-6: chains are also applied to receivers that no builder produces (last row (0,0,0,w) with w /= 1, zero, diagonal, zero last column, general), in both layouts, returning and in-place.",
+ "C08": " Rounds 5-6: view volumes in units of 2^-45 and 2^20 (rectangle and depth range independently) and with exact ties (left+right = 0 and/or bottom+top = 0, mirrored).",
+ "C09": " Rounds 5-6: change of basis on left-handed as well as right-handed orthonormal bases.",
+ "C10": " Rounds 5-6: general matrices with look-alike ties (bottom-right element 1 next to a non-trivial last row; last row 0 0 0 1 on one side only) and projection matrices scaled by 2^-45 and -2^-42 (homogeneous invariance: clip w tiny but non-zero).",
+ "C11": " Rounds 5-6: determine_side and the triangle areas on Vec2<i32>/Vec2<i64> (exact whenever the area is an integer).",
+ "C12": " Rounds 5-6: slerp_f - slerp and nlerp of unit quaternions on f32/f64 stay on the unit sphere to 2^-32 / 2^-16 for separations 2e-5 .. 2.5 rad (nearly parallel pairs, where implementations switch formulas) and factors inside and outside [0,1].",
+ "C13": " Rounds 5-6: box_distance_f - distance from an f32/f64 box (2D/3D) to points 2^-4 .. 2^-60 outside a face or a corner equals the true distance to 2^-14 relative.",
+ "C14": " Rounds 5-6: evaluate / derivative / split also on curves scaled by 2^-30 and 2^20 and with a handle collapsed on its end point (derivative exactly zero there); a symbolic record dropped as inconclusive is reported in the evidence and the sampled lanes decide.",
+ "C15": " Rounds 5-6: bez_piece_box_f - every piece obtained by splitting an f64 cubic at one of its own extrema (and the reversed piece) contains 65 of its own points in its bounding box to 2^-26.",
+ "C16": " Rounds 5-6: point shapes (radius exactly 0) queried at their own centre, Disk::point / Sphere::point.",
+}
+
 PENDING_REASON = "check for this property is not built yet in this round (see DESIGN.md §10 build order); no claim made"
 
 
@@ -222,7 +238,7 @@ def main():
             "evidence_file": "evidence/%s.json" % pid,
             "replay_cmd_template": "./check %s --replay {path}" % pid,
             "engine": "tlc+vh",
-            "level_claimed": {"category": "model_checking", "text": c["text"], "design_ref": c["design"]},
+            "level_claimed": {"category": "model_checking", "text": c["text"] + ROUND6.get(pid, ""), "design_ref": c["design"] + (", §14" if pid in ROUND6 else "")},
             "level_note": c.get("note", NOTE),
             "technique": c["technique"],
         })
